@@ -95,6 +95,13 @@ MULTI_EDITS = (
     ("join", ("K1",), Q_GT_0, False),
     ("sel", spaces.P_ONLY_SQL),
     ("sel", spaces.P_ONLY_IT),
+    # cross-engine operands that are themselves sorted / chained trees of the other engine
+    ("join", ("K1", S((R("d"), True))), None, False),
+    ("join", ("K1", S((R("d"), True))), None, True),
+    pe(("join", ("K1", S((R("d"), True))), None, False), "e1", False, False, False),
+    ("chain", ("L2", S((R("c"), True)))),
+    ("chain", ("L2", S((R("c"), True)), ("chain", ("L2",))), True),
+    ("join", ("K", S((R("d"), True))), None, False),
 )
 
 
